@@ -74,6 +74,10 @@ def settings(rng, quick):
             for max_retries in (0, 1, 3):
                 out.append(dict(dt_init=float(rng.choice([1e-4, 1e-3, 5e-3])), dt_max=float(rng.choice([1e-2, 5e-2, 0.1])), adaptive=adaptive,
                                 adaptive_window=window, adaptive_time_step_multiplier=float(rng.choice([0.25, 0.5, 0.1])), max_solve_retries=max_retries))
+    # boundary of the admissible options: dt_init == dt_max with the adaptive rule on (the step cannot grow, but a
+    # refused update is still retried with a smaller one)
+    out.append(dict(dt_init=5e-3, dt_max=5e-3, adaptive=True, adaptive_window=2, adaptive_time_step_multiplier=0.5, max_solve_retries=3))
+    out.append(dict(dt_init=1e-2, dt_max=1e-2, adaptive=True, adaptive_window=1, adaptive_time_step_multiplier=0.25, max_solve_retries=1))
     return out
 
 
